@@ -42,7 +42,7 @@ def _clean_ttrace():
             pass
 
 
-def run_programs(ctx, exe, progs, tag, chunk=None):
+def run_programs(ctx, exe, progs, tag, chunk=None, cfg="Trace_Coroutine.cfg"):
     """Execute the programs on the real code, validate every trace. Returns True when all were accepted."""
     if not progs:
         return True
@@ -63,7 +63,7 @@ def run_programs(ctx, exe, progs, tag, chunk=None):
             for p in chunks[i]:
                 f.write(json.dumps(p) + "\n")
         tr = ctx.tmp("%s-%d.ndjson" % (tag, i))
-        ok, n = vlib.record_and_validate(ctx, exe, ["run", sp, tr], tr, SPEC, "Trace_Coroutine.tla", "Trace_Coroutine.cfg",
+        ok, n = vlib.record_and_validate(ctx, exe, ["run", sp, tr], tr, SPEC, "Trace_Coroutine.tla", cfg,
                                          "%s: %d programs on the real scheduler (chunk %d/%d)" % (tag, len(chunks[i]), i + 1, len(chunks)))
         return ok
     try:
@@ -73,6 +73,41 @@ def run_programs(ctx, exe, progs, tag, chunk=None):
         ctx.metadir = orig_meta
         _clean_ttrace()
     return all(res)
+
+
+# ------------------------------------------------------------------------------------------------------------------
+# parametric "crowd" programs: sizes that the exhaustive small programs cannot reach (not TLC-enumerated; executed on the
+# real scheduler and validated by the same trace spec, the crowd ones with Trace_Coroutine_crowd.cfg: MaxR = 101)
+# ------------------------------------------------------------------------------------------------------------------
+def crowd_programs(sizes=(33, 40, 64, 100)):
+    """N routines made ready in ONE scheduler pass: created at once / one broadcast post / N releases / N sends by one routine.
+    The waiters are created in batches of 16 with a pass in between, so only the final step readies them all together."""
+    progs = []
+    for n in sizes:
+        progs.append({"seminit": [0, 0], "clogic": [0, 0], "scripts": [[op("Yield")] for _ in range(n)],
+                      "main": [op("Create", r, 1) for r in range(1, n + 1)]})
+        for wait, post, cnt in (("BWait", "BPost", 1), ("Acq", "Rel", n), ("Recv", "Send", n)):
+            main = []
+            for r in range(1, n + 1):
+                main.append(op("Create", r, 1))
+                if r % 16 == 0:
+                    main.append(op("Pass"))
+            main += [op("Idle"), op("Create", n + 1, 1)]
+            progs.append({"seminit": [0, 0], "clogic": [0, 0], "scripts": [[op(wait, 1)] for _ in range(n)] + [[op(post, 1)] * cnt],
+                          "main": main})
+    return progs
+
+
+def backlog_programs(prefills=range(1, 16), bursts=(16, 17, 31, 32, 33, 64, 65)):
+    """One channel, one receiver: p values sent and consumed, then a burst of b sends before the receiver runs again, then the
+    receiver drains (FIFO, exactly once, exactly the sent values - whatever the channel's storage does when it grows)."""
+    progs = []
+    for p in prefills:
+        for b in bursts:
+            progs.append({"seminit": [0, 0], "clogic": [0, 0],
+                          "scripts": [[op("Recv", 1)] * (p + b), [op("Send", 1)] * p + [op("Yield")] + [op("Send", 1)] * b],
+                          "main": [op("Create", 1, 1), op("Create", 2, 1)]})
+    return progs
 
 
 # ------------------------------------------------------------------------------------------------------------------
@@ -233,6 +268,12 @@ def run(ctx):
                 ctx.traces_ok -= len(progs)
             nprog += len(progs)
         ctx.exhaustive = True
+        # 2b. sizes beyond the exhaustive scopes: crowds of 33..100 routines readied in one pass, channel backlogs of 16..65 values
+        cp, bp = crowd_programs(), backlog_programs()
+        ctx.notes.append("crowd: %d programs (33/40/64/100 routines readied in one pass), backlog: %d programs (prefill 1..15 x burst "
+                         "16..65 on one channel); parametric, not TLC-enumerated" % (len(cp), len(bp)))
+        run_programs(ctx, exe, cp, "crowd", chunk=max(1, -(-len(cp) // max(1, vlib.NCPU))), cfg="Trace_Coroutine_crowd.cfg")
+        run_programs(ctx, exe, bp, "backlog", chunk=max(10, -(-len(bp) // max(1, vlib.NCPU))))
         # 3. code -> spec: seeded random larger programs
         rnd = random.Random(ctx.seed * 7919 + 18)
         n = 1500 if ctx.quick() else 40000
